@@ -478,6 +478,47 @@ fn failed_registry_change_then_next_transaction() {
     check_native("next_transaction_succeeds", r2.is_ok(), || format!("{:?}", r2.as_ref().err().map(|e| e.to_string())));
 }
 
+/// found missing by seed C01k: a reply_on Always sub-message succeeds, its reply handler fails on the
+/// Ok result (and would accept an Err result): the whole call fails and nothing of the tree is kept
+fn failing_success_reply_is_not_retried_as_failure() {
+    let mut t = top(1);
+    let (user, k0, sink) = (t.w.user.clone(), t.w.ks[0].clone(), t.w.sink.clone());
+    let a1 = sym_u128("fr_a1", 0, BAL);
+    let script = Script::new().write("exec", "1").sub(
+        BankMsg::Send { to_address: sink.to_string(), amount: vec![coin(a1, "x")] },
+        ReplyOn::Always,
+        1,
+        Some(Script::new().write("reply_seen", "1").then(Step::FailOnOk { msg: "cannot handle success".into() })),
+    );
+    let before = snapshot(&t.w.app);
+    let r = match catch(|| t.w.app.execute_contract(user.clone(), k0.clone(), &script, &[])) {
+        Ok(r) => r,
+        Err(p) => {
+            failure("no_panic", "panic", p);
+            return;
+        }
+    };
+    let sent = decide(and(lt(k(0), v(a1)), le(v(a1), t.w.bal[0])));
+    match (r.is_ok(), sent) {
+        (false, true) => {
+            witness("success_reply_failed");
+            check_unchanged("err_leaves_every_byte_of_storage_unchanged", &t.w.app, &before);
+        }
+        (true, false) => {
+            // the transfer failed, the reply accepted the failure: exactly the handler's writes are kept
+            witness("failure_reply_accepted");
+            let d = t.w.app.dump_wasm_raw(&k0);
+            check_native("effects_of_whole_tree_persisted_in_order", d == vec![(b"exec".to_vec(), b"1".to_vec()), (b"reply_seen".to_vec(), b"1".to_vec())], || format!("{:?}", d));
+        }
+        (true, true) => {
+            check_native("failing_reply_fails_the_call", false, || "the call succeeded although the reply to the successful sub-message failed".into());
+        }
+        (false, false) => {
+            check_native("accepted_failure_succeeds", false, || format!("{:?}", r.as_ref().err().map(|e| e.to_string())));
+        }
+    }
+}
+
 /// the Executor helpers are thin wrappers: same atomicity
 fn helpers() {
     let mut t = top(2);
@@ -522,6 +563,7 @@ pub fn scenarios(tier: &str) -> Vec<Scenario> {
     v.push(Scenario::new("executor_helpers", &["helper_ok", "helper_err"], helpers));
     v.push(Scenario::new("execute_multi_same_key_set_and_removed_over_three_messages", &["same_key_ok"], same_key_over_messages));
     v.push(Scenario::new("failed_migration_or_instantiation_then_the_next_transaction", &["registry_change_rolled_back"], failed_registry_change_then_next_transaction));
+    v.push(Scenario::new("reply_failing_on_success_and_accepting_failure", &["success_reply_failed", "failure_reply_accepted"], failing_success_reply_is_not_retried_as_failure));
     v.push(Scenario::new("execute_multi_mixing_staking_and_bank_messages", &["staking_multi_ok", "staking_multi_err"], multi_with_staking_messages));
     v.push(Scenario::new(
         "staking_sudo_and_messages_failing_after_time_has_passed",
